@@ -1,31 +1,57 @@
 """C16 - accepted mutations have exactly their documented effect and touch nothing else.   (DESIGN.md section 5, C16)
 
 Decided structurally (clauses that are necessary for the behaviour; the spec side of every comparison is the property
-text / the docstrings' documented primitive, written down in the tables of this module):
+text / the docstrings' documented primitive, written down in the tables of this module).  Obligations (floor):
 
-  wiring            list facades hold their owner and the owner's raw list by reference; WBS.roots is the sentinel's
-                    children facade
-  delegation.*      every facade method / operator is the documented primitive with the documented argument shape and
-                    nothing else (no other relation event in the function, effect on every accepted path)
-  setters_exact.*   children.setter clears the shared list in place, releases the old children, re-parents the given
-                    tasks in the given order; dependency setters store a copy of the given list, unlink self from the
-                    mirror list of every old element (deciding on task identity) and append self to the mirror of
-                    every new element
-  append_last       parent.setter removes from the old parent first, then appends (never inserts) to the new one
-  move_index        before -> insert(index(before), t), after -> insert(index(after) + 1, t), index taken after the
-                    removal, tasks in argument order
-  sort              one stable sorted(list, key=attribute getter, reverse=reverse), published through the setter
-  reorder           picks (first match per id, ids order) + rest (old order) built on a copy, published
-  insert_index      anchor = element `index` of the list without the task (None past the end), taken before attaching;
-                    attach; move before the anchor
-  frame             raw relation writes of every mutator only on self / argument elements / old elements / old parent /
-                    new parent, and only the documented field of each; effectful callees are mutators of the same set
-  subtree_follows   re-parenting never writes __children (or the dependency lists) of the moved task
+  wiring (9)                   list facades hold their owner and the owner's raw list by reference (a copy is refuted); the
+                               publish callback stores what it is given; WBS.roots is the sentinel's children facade
+  delegation.children_list (2) append(t) = `t.parent = owner`, unconditional; remove(t) = `owner.children = [x .. if x != t]`
+                               for members (True), nothing for non-members (False); filter by identity, never by id
+  delegation.link_lists (4)    append = `owner.rel = [old ..] + [t]` (old first, old read from the OWNER - the facade's own
+                               `_list` is a snapshot), remove = filtered owner list; each facade edits its own relation
+  delegation.operators (7)     Task //,<<,>> = `self.rel += other`, return other; list + = `_list + _to_list(other)`;
+                               list <<,>> over every element; WBS // x = sentinel // x
+  delegation.wbs (3)           roots setter = `sentinel.children = v`; remove = search from the sentinel; the search removes
+                               from `current.children` and recurses into every child with (task, child)
+  delegation.remove_all (2)    query with key AND **kwargs, single-task removal per match, returns the matches
+  setters_exact.children (4)   in-place clear (rebinding / selective removal refuted), old children released before it,
+                               `v.parent = self` for every element of the value in the value's order after it, detach only
+                               of left-out old children
+  setters_exact.dependencies (6) store a copy of exactly the value; unlink self from the mirror of every OLD element, append
+                               self to the mirror of every NEW element; conditions on ids refuted
+  append_last (4)              parent setter: leave the old parent first (on every path, before __parent is overwritten),
+                               store, APPEND to the new parent; parent None: sentinel append / __parent = None
+  subtree_follows (4)          re-parenting never writes children / links of the moved task; _attach/_detach (followed
+                               through private helpers) write only __wbs inside self's subtree
+  move_index (2)               per task in argument order: remove, then insert at index(before) / index(after) + 1, index
+                               taken after the removal; both anchors served
+  sort (2)                     ONE stable sort (sorted(..) stored, or list.sort) with key = attribute getter of `key` and
+                               reverse=reverse; reversal as a second step / reversed() / [::-1] refuted; a rebinding store
+                               must be published
+  reorder (3)                  picks = first match per id in ids order, rest = copy minus picks in old order, `picks +
+                               rest`; live-list edits refuted; loop and comprehension spellings
+  insert_index (3)             anchor = element `index` of the list WITHOUT the task (None when index >= len), looked up
+                               before attaching; attach; move(task, before=anchor) under `anchor is not None` only
+  frame (29)                   per mutator: raw relation writes only on self / argument elements / old elements / old
+                               parent / new parent and only the field documented for that receiver; relation-changing
+                               callees stay inside the mutator set
+  shared_list_stays_shared (8) no mutator rebinds Task.__children or a children facade's `_list` (contents change in place);
+                               the publish callback only ever receives the shared object
 
-Not decided: the resulting list for all states; sort on missing / incomparable attributes; the stale `_list` snapshot
-that a second facade object keeps after sort()/reorder() rebound the owner's list through the publish callback (the
-rule only demands that children.setter itself never rebinds); duplicate ids handed to reorder (C01/C15); whether
-validation precedes mutation (C15); _attach/_detach bookkeeping beyond "only the moved subtree" (C11).
+Not decided: the resulting list for all states; sort on missing / incomparable attributes; duplicate ids handed to reorder and
+dict-based pick idioms (C01/C15, UNDECIDED here); whether validation precedes mutation (C15); what _attach/_detach must
+record (C11: events touching only __wbs are never counted as `extra effect`); the stale `_list` snapshot of the link-list
+facades is only guarded on the write side (append/remove must re-read the owner).
+
+Engine limitations worked around in this module: (1) Effects gives roots, not the provenance of loop variables -> own
+classification (`classify_list` / `elem_class`: argument / old list live / old list copy, with the cfg node that evaluated it);
+(2) Expander treats attribute paths without an entry definition as uniquely defined by a conditional store and keeps locals
+that are mutated through methods opaque -> object identity is followed by `resolve` / `deref` instead; in-place edits through
+a local alias are re-attributed to the relation field in `events`; (3) loops written as comprehensions / any() have no cfg
+node -> `binding_of`; (4) path coverage ("effect on every accepted path, except the documented no-op exit") is computed here
+(`covered`, `escaping_path`, `guard_anchor`), with validation guards (other side only raises) removed from path conditions
+and implied negated conjunctions dropped; (5) a required effect that is not found while the function hands work to a helper
+the rule cannot follow ends UNDECIDED (`A.absent`), never REFUTED.
 """
 from __future__ import annotations
 
